@@ -332,6 +332,9 @@ func genC07(r *rand.Rand, rg *c07Rig, id string, thorough bool) *c07Req {
 	sc.Body = make([]byte, n)
 	r.Read(sc.Body)
 	sc.Headers = []rawhttp.Header{{Name: "Content-Type", Value: choose(r, []string{"application/octet-stream", "text/plain", "application/x-verif"})}, {Name: "X-Up", Value: id}}
+	if r.Intn(10) == 0 {
+		sc.Headers = sc.Headers[1:] // an upstream that labels its body with no type: the client gets none either
+	}
 	for m := r.Intn(4); m > 0; m-- {
 		sc.Headers = append(sc.Headers, rawhttp.Header{Name: choose(r, []string{"Set-Cookie", "X-Multi", "Cache-Control", "ETag", "Location", "X-Long"}), Value: choose(r, []string{"a=b; Path=/", "v1", "v2, v3", `"tag"`, "/other?x=1", strings.Repeat("R", 3000)})})
 	}
@@ -571,6 +574,11 @@ func c07One(c *ctx, which string, rg *c07Rig, q *c07Req, unrouted *atomic.Int64)
 	if got == nil {
 		viol(which, "request-not-forwarded", fmt.Sprintf("the upstream never saw the request (client got status %d)", resp.Status))
 		return
+	}
+	if which == "c07" && q.Route == -2 && got != nil && len(q.sent("User-Agent")) == 0 {
+		if g := got.Get("User-Agent"); len(g) > 0 && g[0] != "" {
+			viol("c07", "user-agent-invented:websocket", fmt.Sprintf("websocket upgrade: client sent no User-Agent, upstream saw %q", g))
+		}
 	}
 	if which == "c07" && q.Route == -2 && q.Script.Status != 0 {
 		sc := q.Script
